@@ -122,7 +122,7 @@ func check(c Case) error {
 		}
 		if timeout {
 			h.Discard("timeout")
-			continue
+			return nil
 		}
 		if len(seq) > n+1 {
 			return fail(fmt.Sprintf("%d matches on %d runes", len(seq), n))
